@@ -189,6 +189,14 @@ def r3(ctx):
             continue
         if q in ('AffTree::apply_func_at_node', 'AffTree::update_node', 'AffTree::unary_op_inplace'):
             continue  # judged at their internal callers below
+        if q == 'AffTree::apply_func':
+            # terminals rewritten in place: a terminal has no descendants whose cached regions could go stale, and composing on the output
+            # side leaves the terminal's own path region as it was
+            if all(any(is_call(x, 'Tree::terminals_mut') for x in walk(w[4])) for w in ws):
+                ctx.ok('C05.R3', site, 'rewrites nodes drawn from terminals_mut() only', span)
+            else:
+                ctx.bad('C05.R3', site, 'apply_func rewrites the function of a node that is not known to be a terminal', span)
+            continue
         ctx.bad('C05.R3', site, 'unexpected writer of node functions', span)
     # internal callers reach terminals only
     for (cb, bb, t) in F.callers_of(lambda c: c.self_base == 'AffTree' and c.name in ('apply_func_at_node', 'update_node')):
